@@ -70,7 +70,8 @@ CONFIG = dict(
     rule="real ClientSessions in a real Hub with a gate-controlled fake Mcu inside a testing/synctest bubble; cases = "
          "(a) the witness schedules of the repaired defect, (b) all orders of <= 4 concurrent threads "
          "(1-2 creations = request + media-server answer ok/fail/timeout, 0-2 of leave / leave call / close / "
-         "revoke / switch room; thorough: every order, quick: PRNG sample), (c) PRNG histories over 3 sessions, "
+         "revoke / switch room; thorough: every order of every such thread set with <= 3 threads or one creation, "
+         "and of a third of the 2-creation + 2-action sets chosen by the seed; quick: PRNG sample of these), (c) PRNG histories over 3 sessions, "
          "2 rooms, 3 stream types, 12 permission sets with interspersed observations, (d) malformed lines, (e) stress "
          "runs under the race detector (one client goroutine per session + 2-8 backend goroutines, 5-40 actions "
          "each, the fake media server answering on its own), (f) the real Janus client against the repository's "
